@@ -281,6 +281,14 @@ theorem leaderMsg_rejects_foreign_sender (qc hdr : Gen.Bft.View) (sender propose
   repeat' split at hn
   all_goals simp_all
 
+/-- a round change drops everything the replica held for the round — block, cached block hash, results, proposer —
+    unconditionally (locked or not): `GetBlockHash()` recomputes the hash of whatever is proposed next. The per-replica
+    model's `Rep.newRound` / `reset` do the same, and the driver compares the block a replica signs for with it. -/
+theorem newRound_clears_round_state :
+    "b.Block, b.BlockHash, b.Results = nil, nil, nil" ∈ src_NewRound_stmts ∧ "b.ProposerKey = nil" ∈ src_NewRound_stmts ∧
+    "b.NewRound(true)" ∈ src_NewHeight_stmts := by
+  decide
+
 /-! ## the per-replica handlers accept what a correct leader sends (duals of C01's `exec_*` theorems) -/
 
 /-- `StartProposeVotePhase` lets a replica vote when the justification dominates its lock or certifies the locked block -/
